@@ -123,6 +123,40 @@ def staged_in_lambda_lists(chk):
                                        "expected": f"compile-time log ['x'], run-time [log, value] {want!r}"})
 
 
+def staged_in_assert(chk):
+    """The run-time half of a staging form runs as often as the construct evaluates the sub-form: the message of an `assert` is
+    evaluated only when the assertion fails (and not at all under -O), so an eval-and-compile / do-mac written there runs once at
+    compile time and, at run time, once per *failing* assertion."""
+    import types
+    import hy.compiler as hc
+    cases = {
+        "eval-and-compile as message of a passing assert": ('(assert True (eval-and-compile (.append log "x") "m"))', [], None),
+        "eval-and-compile as message of a failing assert": ('(try (assert False (eval-and-compile (.append log "x") "m")) (except [e AssertionError] (.append log (str e))))', ["x", "m"], None),
+        "do-mac as message of a passing assert": ("(assert (= 1 1) (do-mac '(do (.append log \"r\") \"m\")))", [], None),
+        "eval-and-compile as test of an assert": ('(assert (eval-and-compile (.append log "x") True) "m")', ["x"], None),
+        "eval-and-compile with a statement body as message, test needs statements": ('(assert (do (setv q 1) q) (eval-and-compile (setv z 1) (.append log "x") "m"))', [], None),
+    }
+    for what, (form, want, _) in cases.items():
+        src = f'(eval-and-compile (setv log [])) {form} (list log)'
+        mod = types.ModuleType("hv_c16a")
+        ct = None
+        try:
+            tree = hc.hy_compile(hy.read_many(src), mod, root=ast.Module)
+            ct = list(getattr(mod, "log", ["<no log>"]))
+            ns = mod.__dict__
+            exec(compile(ast.Module(body=tree.body[:-1], type_ignores=[]), "<c16a>", "exec"), ns)
+            got = eval(compile(ast.Expression(body=tree.body[-1].value), "<c16a>", "eval"), ns)
+        except Exception as e:  # noqa: BLE001
+            got = f"{type(e).__name__}: {e}"[:200]
+        want_ct = ["x"] if "eval-and-compile (.append" in form or "(setv z 1)" in form else []
+        ok = got == want and ct == want_ct
+        chk.case(("staged-assert", what))
+        chk.ob(f"staged/{what}: run-time half runs exactly when the sub-form is evaluated", ok, "cpython-oracle", "proved",
+               detail=f"compile-time log {ct}, run-time log {got!r}; expected {want_ct} and {want!r}",
+               replay=None if ok else {"confirmed": True, "input": src, "observed": f"compile-time log {ct}, run-time log {got!r}",
+                                       "expected": f"compile-time log {want_ct}, run-time log {want!r}"})
+
+
 def run(chk):
     C = rules.Case
     f = "hy/core/result_macros.py::compile_eval_foo_compile"
@@ -242,6 +276,7 @@ def run(chk):
         Entry(nm, b, [CB] * len(inspect.signature(b).parameters), "hy/compiler.py::HyASTCompiler._compile_branch")
     structural.run(chk, "compile-once", compiled_once, prefix="compile-once")
     staged_in_lambda_lists(chk)
+    staged_in_assert(chk)
     # defmacro
     from hy.reader import mangle
     import hy.macros as hmac
